@@ -79,7 +79,7 @@ def answer (e : Env) (q : String) : String :=
     | some o, some n =>
       match expandName e o n with
       | none => "Crash"
-      | some p => match objFor e p with
+      | some _ => match resolveName e o n with
         | some i => toString i
         | none => "None"
     | _, _ => "bad-query"
